@@ -1,8 +1,8 @@
 #!/bin/bash
 # tools/mq_run.sh <patch> <ID>...  — triage a seeded change in the scratch copy (/tmp/mq), leaving /repo untouched.
 patch="$(realpath "$1")"; shift
-git -C /tmp/mq/repo checkout -q -- . ; git -C /tmp/mq/repo apply "$patch" || { echo "patch does not apply"; exit 2; }
-cd /tmp/mq/verif
+git -C ${MQ:-/tmp/mq}/repo checkout -q -- . ; git -C ${MQ:-/tmp/mq}/repo apply "$patch" || { echo "patch does not apply"; exit 2; }
+cd ${MQ:-/tmp/mq}/verif
 for id in "$@"; do
   s=$(date +%s); out=$(timeout ${CHECK_TIMEOUT:-900} ./check "$id" "${TIER:-quick}" 2>&1); code=$?; e=$(date +%s)
   if [ $code -eq 1 ] && echo "$out" | grep -q "^VIOLATION property=$id"; then
@@ -10,4 +10,4 @@ for id in "$@"; do
   elif [ $code -eq 0 ]; then echo "missed   $id ($((e-s))s)"
   else echo "MACHINERY($code) $id: $(echo "$out" | tail -3 | tr '\n' ' ')"; fi
 done
-git -C /tmp/mq/repo checkout -q -- .
+git -C ${MQ:-/tmp/mq}/repo checkout -q -- .
